@@ -102,7 +102,9 @@ func runC02(t *testing.T, seed uint64, m *Mask) *Report {
 			}
 		}
 		pf := world.ProtoFunc(proto)
-		cli := e.NewPeer("cli", erpc.PeerConfig{})
+		// the caller may be slow before and after its frame is written (a slow plugin): reply arrival, close and
+		// loss can then land while a call is still being launched
+		cli := e.NewPeer("cli", erpc.PeerConfig{}, &world.Slow{Env: e, P: []float64{0, 0, 0.3, 0.8}[e.Gen.Intn(4)], PostLaunch: true, PreLaunch: true})
 		var srv erpc.Peer
 		var rt world.Routes
 		var sa, sb erpc.Session
